@@ -782,7 +782,7 @@ PROPS = {
         "level_text": "345 instantiations (RepMinMax for all MIN,MAX in 0..=4 incl. MIN>MAX, RepMin, RepExact, Rep, RepOnce with skip on/off; [T;N]; (T1,T2); Option; AtomicRepeat; SkipChar) x four element kinds (string, choice, nested repetition, PUSH~POP) x every string of length <= 8 (thorough 9) over {x, y, space}: verdict, cursor, element count, bounds, stack afterwards, parse vs check.",
         "level_note": "the model is 20 lines written from the property statement (greedy, skip only kept before a matched iteration, fail iff fewer than MIN or bounds unsatisfiable)",
         "level": "exploration",
-        "required": {"instantiations_RepMinMax": 200, "instantiations_RepMin": 40, "instantiations_array": 20, "instantiations_pair": 16, "instantiations_SkipChar": 5, "matched": 100000, "failed": 100000},
+        "required": {"instantiations_RepMinMax": 200, "instantiations_RepMin": 40, "instantiations_array": 20, "instantiations_pair": 16, "instantiations_SkipChar": 5, "instantiations_Skip": 6, "matched": 100000, "failed": 100000},
         "assumptions": ["release profile of the engine; x86_64-linux", "elements never match the empty string (so zero-progress iterations, which the statement does not cover, do not occur)"],
     },
     "C06": dict(harness_prop(
